@@ -109,6 +109,7 @@ static void run_case(const Bytes &m, int prior, unsigned devid, en::CaseOut &o) 
     std::string before; snapshot(P->I, before);
     OPNMIDIplay &pp = *P->I.play();
     uint32_t mode0 = pp.m_synthMode;
+    bool drum0[16]; for(int c = 0; c < 16; c++) drum0[c] = pp.m_midiChannels[(size_t)c].is_xg_percussion;
     // exact-size heap copy of the message
     uint8_t *blk = (uint8_t *)malloc(m.size() ? m.size() : 1); if(m.size()) memcpy(blk, m.data(), m.size());
     int ret = opn2_rt_systemExclusive(P->I.dev, blk, m.size());
@@ -145,7 +146,10 @@ static void run_case(const Bytes &m, int prior, unsigned devid, en::CaseOut &o) 
             for(size_t c = 0; c < P->I.tap.chips.size() && c < E.tap.chips.size() && !o.bad; c++) for(int port = 0; port < 2 && !o.bad; port++) for(int reg = 0x40; reg < 0x50; reg++) if(keydown.count((int)c * 6 + port * 3 + (reg & 3)) && (reg & 3) != 3 && P->I.tap.chips[c].regs[port][reg] != E.tap.chips[c].regs[port][reg]) {
                 snprintf(b, sizeof b, "master volume %d accepted, but total-level register %02X (chip %zu port %d) of a sounding note is %u; with the message sent before the notes it is %u", r.a, reg, c, port, P->I.tap.chips[c].regs[port][reg], E.tap.chips[c].regs[port][reg]); o.fail("C19/effect/master-volume-not-applied-to-sounding-notes", b + ctx); break; } }
         if(y.m_masterVolume != r.a) { snprintf(b, sizeof b, "master volume is %u, message says %d", y.m_masterVolume, r.a); o.fail("C19/effect/master-volume", b + ctx); } if(pp.m_synthMode != mode0) o.fail("C19/effect/master-volume-changed-mode", "master volume changed the mode" + ctx); break;
-    case R_DRUM: { static const uint8_t map[16] = {9, 0, 1, 2, 3, 4, 5, 6, 7, 8, 10, 11, 12, 13, 14, 15}; bool want = r.b == 1 || r.b == 2; if(r.b <= 2 && pp.m_midiChannels[map[r.a]].is_xg_percussion != want) { snprintf(b, sizeof b, "drum-part flag of MIDI channel %u is %d, message (part %d, value %d) says %d", map[r.a], (int)pp.m_midiChannels[map[r.a]].is_xg_percussion, r.a, r.b, (int)want); o.fail("C19/effect/drum-part", b + ctx); } break; }
+    case R_DRUM: { static const uint8_t map[16] = {9, 0, 1, 2, 3, 4, 5, 6, 7, 8, 10, 11, 12, 13, 14, 15}; bool want = r.b == 1 || r.b == 2; if(r.b <= 2 && pp.m_midiChannels[map[r.a]].is_xg_percussion != want) { snprintf(b, sizeof b, "drum-part flag of MIDI channel %u is %d, message (part %d, value %d) says %d", map[r.a], (int)pp.m_midiChannels[map[r.a]].is_xg_percussion, r.a, r.b, (int)want); o.fail("C19/effect/drum-part", b + ctx); }
+        // ... and of no other part
+        for(int c = 0; c < 16 && !o.bad; c++) if(c != map[r.a] && pp.m_midiChannels[(size_t)c].is_xg_percussion != drum0[c]) { snprintf(b, sizeof b, "the message addresses part block %d (MIDI channel %u) but the drum-part flag of MIDI channel %d changed from %d to %d", r.a, map[r.a], c, (int)drum0[c], (int)pp.m_midiChannels[(size_t)c].is_xg_percussion); o.fail("C19/effect/drum-part-other-channel", b + ctx); }
+        break; }
     default: break;
     }
     if(r.kind == R_GM_ON || r.kind == R_GM_OFF || r.kind == R_GS || r.kind == R_XG) {
@@ -172,6 +176,10 @@ int main(int argc, char **argv) {
     std::vector<en::Family> fams;
     { en::Family F; F.name = "canonical"; F.count = NMSG * NPRIOR * 16; F.chunk = 16; F.describe = "the 7 recognised messages x 10 prior states (GM/GS/XG x {default, non-default controllers + sounding + pedal-held + drum note}; device id set before {opn2_reset, a song load, an emulator switch, reset-state + panic + chip count}) x device ids 0..15";
       F.run = [](uint64_t i, en::CaseOut &o) { int w = (int)(i % NMSG), pr = (int)((i / NMSG) % NPRIOR); unsigned id = (unsigned)(i / NMSG / NPRIOR); Bytes m = msg(w, id); if(i % 97 == 0) o.sample = vu::hex(m) + " id " + std::to_string(id); run_case(m, pr, id, o); };
+      fams.push_back(F); }
+    { en::Family F; F.name = "drum_part_all_blocks"; F.count = 16 * 4 * 4 * 2; F.chunk = 16; F.describe = "the GS 'use for rhythm part' message (40 1x 15 vv, valid checksum) for every part block x = 0..15 x value {0,1,2,3} x prior state {GS default, GS busy, XG busy, GM default} x device id {0,5}: the flag of the addressed part's MIDI channel (block 0 = part 10, blocks 1..9 = parts 1..9, A..F = parts 11..16) follows the value, the flags of all other channels stay";
+      F.run = [](uint64_t i, en::CaseOut &o) { static const int PR[] = {1, 4, 5, 0}; unsigned blk = (unsigned)(i % 16), val = (unsigned)((i / 16) % 4); int pr = PR[(i / 64) % 4]; unsigned id = (i / 256) ? 5 : 0;
+        Bytes m = {0xF0, 0x41, (uint8_t)(0x10 | id), 0x42, 0x12, 0x40, (uint8_t)(0x10 | blk), 0x15, (uint8_t)val, 0x00, 0xF7}; m[9] = roland_sum(&m[5], 4); if(i % 37 == 0) o.sample = vu::hex(m); run_case(m, pr, id, o); };
       fams.push_back(F); }
     { uint64_t tot = 0; for(int w = 0; w < NMSG; w++) tot += msg(w, 0).size();
       en::Family F; F.name = "single_byte"; F.count = tot * 256 * 2 * 2; F.chunk = 512; F.describe = "every single-byte substitution (x256) at every position of the 7 messages x device id {0,5} x prior state {GS default, XG busy}";
